@@ -1,7 +1,7 @@
 """C02 - section and segment contents, string tables and address mapping are exact."""
 from symx.api import H
 from spec import enc
-from harness.elfkit import stream_length, elf_object, phdr
+from harness.elfkit import stream_length, elf_object, phdr, open_elf
 from spec import elf_layout as L
 
 PROPERTY = 'C02'
@@ -230,9 +230,9 @@ def h_addrmap(ctx):
         # extended program header numbering: e_phnum holds the escape value PN_XNUM, the count is sh_info of section header 0
         img.section('', sh_type=0, sh_info=k)
         img.add_shstrtab()
-        elf = EF.ELFFile(ctx.stream(img.build(e_phnum=0xffff)))
+        elf = open_elf(ctx, img.build(e_phnum=0xffff))
     else:
-        elf = EF.ELFFile(ctx.stream(img.build()))
+        elf = open_elf(ctx, img.build())
     got = list(elf.address_offsets(start, size)) if cfg.get('withsize', True) else list(elf.address_offsets(start))
     if not cfg.get('withsize', True):
         size = 1
